@@ -7,8 +7,10 @@ HERE = os.path.dirname(os.path.dirname(os.path.abspath(__file__)))
 MUTANTS = json.load(open(os.path.join(HERE, "tools", "mutants.json")))
 
 def main():
-    want = set(sys.argv[1:])
+    args = [a for a in sys.argv[1:] if not a.startswith("--")]
+    want = set(args)
     bad = 0
+    results = []
     for m in MUTANTS:
         if want and m["pid"] not in want and m["name"] not in want:
             continue
@@ -27,8 +29,20 @@ def main():
             ok = r.returncode == 1 and viol
             print(("DETECTED " if ok else "MISSED   ") + f"{m['pid']} {m['name']} exit={r.returncode} " + (viol[0].split('replay=')[1].split('/')[-1] if viol else r.stdout.strip().splitlines()[-1][:200] if r.stdout.strip() else r.stderr[-300:]))
             bad += 0 if ok else 1
+            results.append({"pid": m["pid"], "name": m["name"], "file": m["file"], "detected": bool(ok), "exit": r.returncode,
+                            "by": [l.split("replay=")[1].split("/")[-1].replace(".json", "") for l in viol][:4]})
         finally:
             shutil.rmtree(d, ignore_errors=True)
+    if "--save" in sys.argv:
+        path = os.path.join(HERE, "tools", "selftest_results.json")
+        old = {}
+        if os.path.exists(path):
+            old = {(r["pid"], r["name"]): r for r in json.load(open(path))["results"]}
+        for r in results:
+            old[(r["pid"], r["name"])] = r
+        allr = sorted(old.values(), key=lambda r: (r["pid"], r["name"]))
+        json.dump({"note": "last recorded outcome of tools/selftest.py per hand-written mutant (quick tier)", "detected": sum(r["detected"] for r in allr), "total": len(allr),
+                   "results": allr}, open(path, "w"), indent=1)
     return 1 if bad else 0
 
 if __name__ == "__main__":
